@@ -13,13 +13,13 @@ macro_rules! mono {
         pub fn mono_enc(name: &str, s: &Sx) -> Option<desert::Result<Vec<u8>>> {
             Some(match name {
                 $($name => desert::serialize_to_byte_vec(&<$t as Sxv>::from_sx(s)),)*
-                _ => return None,
+                _ => return slice_enc(name, s),
             })
         }
         pub fn mono_dec(name: &str, bytes: &[u8]) -> Option<desert::Result<(String, usize)>> {
             Some(match name {
                 $($name => dec_with_rest::<$t>(bytes),)*
-                _ => return None,
+                _ => return slice_dec(name, bytes),
             })
         }
     };
@@ -64,4 +64,45 @@ mono! {
     "(res (vec u8) (arr 2 i8))" => Result<Vec<u8>, [i8; 2]>,
     "(tup (vec u8) (arr 2 i8))" => (Vec<u8>, [i8; 2]),
     "(tup (arr 3 bool) (vec i8))" => ([bool; 3], Vec<i8>),
+}
+
+// Unsized slices are write-only types (`impl BinarySerializer for [T]`, reached through `&[T]`, `Rc<[T]>`, `Box<Vec<T>>`
+// derefs): what they write is read back as `Vec<T>`. Both ways of reaching the impl must give the same bytes.
+macro_rules! slices {
+    ($($name:literal => $t:ty),* $(,)?) => {
+        pub const SLICE_TYPES: &[&str] = &[$($name),*];
+        fn slice_enc(name: &str, s: &Sx) -> Option<desert::Result<Vec<u8>>> {
+            Some(match name {
+                $($name => {
+                    let v = <Vec<$t> as Sxv>::from_sx(s);
+                    let by_ref = desert::serialize_to_byte_vec(&&v[..]);
+                    let by_rc = desert::serialize_to_byte_vec(&Rc::<[$t]>::from(v));
+                    match (by_ref, by_rc) {
+                        (Ok(a), Ok(b)) if a == b => Ok(a),
+                        (Ok(a), Ok(b)) => panic!("&[T] and Rc<[T]> write different bytes: {:?} / {:?}", a, b),
+                        (Err(e), _) | (_, Err(e)) => Err(e),
+                    }
+                })*
+                _ => return None,
+            })
+        }
+        fn slice_dec(name: &str, bytes: &[u8]) -> Option<desert::Result<(String, usize)>> {
+            Some(match name {
+                $($name => dec_with_rest::<Vec<$t>>(bytes),)*
+                _ => return None,
+            })
+        }
+    };
+}
+
+slices! {
+    "(slice i8)" => i8,
+    "(slice bool)" => bool,
+    "(slice u8)" => u8,
+    "(slice u16)" => u16,
+    "(slice (arr 1 u8))" => [u8; 1],
+    "(slice (opt u8))" => Option<u8>,
+    "(slice (tup u8))" => (u8,),
+    "(slice unit)" => (),
+    "(slice str)" => String,
 }
